@@ -821,6 +821,14 @@ pub fn suite_w(out: &mut Out, seed: u64, thorough: bool, filter: &[String], wide
 			if name == "collapse" {
 				collapse_batch_check(out, id, p as usize, &cs);
 				id += 1;
+				// boundary lengths: exactly one period, one candle less / more, exactly two periods
+				let pu = p as usize;
+				for len in [pu.saturating_sub(1), pu, pu + 1, 2 * pu] {
+					if len >= 1 && len <= cs.len() && pu >= 1 {
+						collapse_batch_check(out, id, pu, &cs[..len]);
+						id += 1;
+					}
+				}
 			}
 		}
 	}
